@@ -6,13 +6,13 @@ THEOREMS = ["Props.C03." + t for t in [
     "grammar_wf", "peg_total", "parse_total", "grammar_captures", "tree_conforms", "tree_in_bounds", "walker_no_panic",
     "field_ids", "field_ids_written", "enum_values",
     "annotations_append", "annotations_keys_first_occurrence",
-    "literal_unescape", "quote_kind_independent", "skip_absorbs_ws", "list_separator_ignored", "skip_nodes_ignored",
+    "literal_unescape", "quote_kind_independent", "skip_absorbs_ws", "skip_absorbs", "list_separator_ignored", "skip_nodes_ignored",
 ]]
 
 PARTIAL = [
-    "layout_independent: proved per token rule only (skip_absorbs_ws: Skip absorbs every run of blanks; list_separator_ignored; "
-    "skip_nodes_ignored; quote_kind_independent); comments inside Skip, Indent* after tokens and the composition over whole "
-    "documents are covered by the oracle only; false for exponent doubles and non-decimal field ids (witnesses in Props/C03.lean)",
+    "layout_independent: proved per token rule only (skip_absorbs: Skip absorbs every whitespace/comment string of the three "
+    "styles; list_separator_ignored; skip_nodes_ignored; quote_kind_independent); Indent* after tokens, SkipLine and the "
+    "composition over whole documents are covered by the oracle only; false for exponent doubles and non-decimal field ids (witnesses in Props/C03.lean)",
     "literal_unescape: stated for contents without a backslash before the quote character or a backslash and not ending in a "
     "backslash (Plain); the excluded shapes have negative witnesses",
     "field_ids_written: decimal spellings within int32 only; hex/octal/out-of-range spellings are read wrongly by the code (witnesses)",
@@ -28,7 +28,14 @@ def run(ctx):
                         "tokens32.AST() drops exactly the empty tokens and nests by range (model: Peg.prune), tied by comparing (depth, rule, begin, end) of every node"]
     ctx.partial += PARTIAL
     if exe:
-        if ctx.replay:
+        replay_input = ctx.replay
+        if replay_input:
+            try:
+                if json.load(open(replay_input)).get("kind") != "failing-input":
+                    replay_input = None      # a broken obligation is replayed by running the whole check again
+            except Exception:
+                pass
+        if replay_input:
             rc, out = core.sh([exe, "replay", "-repo", core.REPO, "-file", ctx.replay])
             if rc != 0:
                 raise core.MachineryError("c03 replay failed: " + out[-2000:])
